@@ -535,7 +535,7 @@ def random_selector(rng, n, allow_oob=True):
             return rng.choice([v, np.int64(v)])
         return rng.choice([v, gen.np_int(rng, v), np.int64(v), np.array(v)])
     if k == "slice":
-        return gen.gen_slice(rng, n)
+        return gen.gen_slice(rng, n, far=True)
     if k in ("list", "array"):
         m = rng.randint(1, 5)
         if n == 0:
@@ -579,7 +579,7 @@ def random_case(rng, tier):
             c = rng.choice([2 ** 32 + c, -2 ** 32 + c])
             return dict(mk_case(lens, rs, rng.choice([c, np.int64(c)]), True, recv), ellpad=pad)
         return dict(mk_case(lens, rs, gen.np_int(rng, c), True, recv), ellpad=pad)
-    return dict(mk_case(lens, rs, gen.gen_slice(rng, maxl), True, recv), ellpad=pad)
+    return dict(mk_case(lens, rs, gen.gen_slice(rng, maxl, far=True), True, recv), ellpad=pad)
 
 
 def classify(case, res):
